@@ -139,6 +139,11 @@ func (f *Frame) call(site ssa.Instruction, common *ssa.CallCommon, pos token.Pos
 		return out
 	}
 	kind, con := e.decideCall(callee, f.depth)
+	if _, isDefer := site.(*ssa.Defer); isDefer && kind == ckContract && con.Handler {
+		// a recover handler run on the normal return path sees recover() == nil:
+		// encode its body (not its contract, which describes the panicking case)
+		kind = ckInline
+	}
 	switch kind {
 	case ckContract:
 		out = f.applyContract(con, callee, args, rt, siteKey, pos)
@@ -333,10 +338,49 @@ func (f *Frame) applyContractEnv(con *Contract, names []string, args []Val, sig 
 		e.addObl("pre", siteKey+":"+clauseLabel(c, i), f.curReach, t, pos, c.Src, f.props())
 		e.assumeAt(f.curReach, t)
 	}
+	if len(con.Measure) > 0 && f.top && e.con != nil && len(e.con.Measure) > 0 {
+		// recursion: the callee's measure at the call is lexicographically below
+		// this function's measure at its entry
+		centry := f.specEnv(f.entry, nil, nil)
+		var cur, ent []string
+		ok := true
+		for i := 0; i < len(con.Measure) && i < len(e.con.Measure); i++ {
+			a, _, err1 := pre.eval(con.Measure[i].Expr)
+			b, _, err2 := centry.eval(e.con.Measure[i].Expr)
+			if err1 != nil || err2 != nil {
+				e.unsupp(fmt.Sprintf("measure of %s: %v %v", disp, err1, err2))
+				ok = false
+				break
+			}
+			cur = append(cur, a.T)
+			ent = append(ent, b.T)
+		}
+		if ok && len(cur) > 0 {
+			cond := "false"
+			for i := len(cur) - 1; i >= 0; i-- {
+				dec := fmt.Sprintf("(and (< %s %s) (>= %s 0))", cur[i], ent[i], ent[i])
+				if i == len(cur)-1 {
+					cond = dec
+				} else {
+					cond = fmt.Sprintf("(or %s (and (= %s %s) %s))", dec, cur[i], ent[i], cond)
+				}
+			}
+			e.addObl("measure", siteKey, f.curReach, cond, pos, "callee measure below caller's entry measure", f.props())
+		}
+	}
 	oldHeap := f.heap.clone()
 	if con.ModAll || (len(con.Modifies) == 0 && !con.Pure && !con.Extern) {
 		// no frame declared: the callee may change anything
 		f.havocAll()
+		for _, hv := range con.Preserves {
+			if _, ok := e.S.heapSort[hv]; !ok {
+				continue
+			}
+			now, before := e.hget(f.heap, hv), e.hget(oldHeap, hv)
+			if now != before {
+				e.assert(fmt.Sprintf("(forall ((r Int)) (=> (and (> r 0) (< r %s)) (= (select %s r) (select %s r))))", e.hget(oldHeap, "$alloc"), now, before))
+			}
+		}
 	} else {
 		for _, m := range con.Modifies {
 			sv, err := pre.evalLoc(m.Expr)
@@ -652,7 +696,13 @@ func (f *Frame) ghostHooksNamed(siteKey string, args []Val, res Val, after bool,
 				e.note("ghost assume at " + siteKey + ": " + gs.C.Src)
 			}
 		case "set":
-			sv, err := env.evalLoc(&ast.Ident{Name: gs.Var})
+			lv, perr := parseSpecExpr(gs.Var)
+			if perr != nil {
+				e.unsupp("ghost set " + gs.Var + ": " + perr.Error())
+				continue
+			}
+			_ = ast.NewIdent
+			sv, err := env.evalLoc(lv)
 			if err != nil || sv.loc == nil {
 				e.unsupp("ghost set " + gs.Var)
 				continue
